@@ -23,6 +23,11 @@ rewritten before every build):
     signal_enum.go     (*SignalEnum).GetSize                K.enumGetSize
     mux_signal.go      (*MultiplexerSignal).GetGroupCountSize   K.getGroupCountSize
     mux_signal.go      (*MultiplexerSignal).GetSize         K.muxGetSize
+    signal_layout.go   insert, append, remove, removeAll, compact, modifyStartBitsOnShrink,
+                       modifyStartBitsOnGrow, resize, shiftLeft, shiftRight (state-passing)
+                       K.layoutInsert, K.layoutAppend, K.layoutRemove, K.layoutRemoveAll, K.layoutCompact,
+                       K.modifyStartBitsOnShrink, K.modifyStartBitsOnGrow, K.layoutResize,
+                       K.shiftLeft, K.shiftRight  (+ their _loopN / _afterN)
 
 The theorems below state that each generated definition equals the hand-written model function
 that the properties C10 / C11 / C13 / C14 (and the layout properties through the enum / mux
@@ -92,6 +97,34 @@ is written overflow-free in the source on purpose).  A change of a comparison, o
 the order of the tests, of a sentinel, a dropped `break` / `continue` breaks the theorem of
 that function.
 
+The state-changing half of the layout (C01).  The methods that MUTATE the layout are translated
+state-passing (kernels_state.go): `sl.signals` is an input `sigs : List Slot` and the first
+component of the result (then the new `sl.size` for `resize`, then the Go result).
+  * `sl.generateFilters()` and assignments to `sl.filters` are IGNORED: the filters are derived
+    data, a function of the signal list and the size (C02 is about that function).
+  * `x.setRelativeStartPos(e)` on the range variable of a loop over `sl.signals` replaces the
+    current element; such a loop is `F_loopN vs (pre_) : List Slot → ρ` whose `pre_` is the prefix
+    already passed WITH its modifications, so `len(sl.signals)`, `sl.signals[j]` and the list
+    returned at a `break` see the elements as modified by the earlier iterations.  A counted
+    loop `for i := a; i < len(sl.signals); i++` is the same loop started with the first `a`
+    elements as prefix (`sl.signals[i]` is the current element; a negative `a` is `Res.panic`).
+  * The slice holds POINTERS.  The argument signal `sig` (insert, append) is the triple
+    (`id`, `sigStart`, `sz`); `sig.setRelativeStartPos(e)` assigns `sigStart` and gives the new
+    start to every list element with the same entity id (an element that IS `sig`): pointer
+    identity ↦ entity id.  Hence the hypothesis `∀ s ∈ l, s.id ≠ id` of `K_layoutInsert` /
+    `K_layoutAppend` (the signal is not yet in the layout; `Message.addSignal` refuses a
+    duplicate).  After a setter every other element variable is stale for the translator.
+  * `var p Signal`, `p = sl.signals[j]`, `p = nil`, `if p != nil` ↦ `Option Slot`; an `if` with a
+    branch that indexes / returns / breaks on some paths only has the code that follows it
+    emitted in both branches.
+  * `if err := sl.verifyBeforeX(..); err != nil { return &E{.., Err: err} }` ↦ the generated
+    `K.verifyBeforeX` is called (its parameterised reads resolved in the caller's table) and its
+    cause is passed through; the wrapping struct is ignored as before.
+The equalities are with the model functions of Acme.Core.Layout that C01 is proved about
+(`insert`, `append`, `remove`, `compact`, `shrinkStarts`, `growStarts`, `verifyResize`,
+`shiftLeft`, `shiftRight`), for ALL lists and arguments (no `WF`), through `stateExc` / `stateRes`
+(new list on success, cause on error, `LErr.panic` for an index panic).
+
 Where a hypothesis appears (`v < 2 ^ 64`) it says that the argument is a Go `int`: the model
 functions are defined on all of `Int`, the Go function only on 64-bit values (for `v ≥ 2^64` the
 conversion `uint64(val)` of the source has no counterpart in the model).
@@ -99,6 +132,7 @@ conversion `uint64(val)` of the source has no counterpart in the model).
 import Acme.Proofs.GenKernels
 import Acme.Proofs.GenKernelsLayout
 import Acme.Proofs.GenKernelsEnum
+import Acme.Proofs.GenKernelsState
 
 namespace Acme.Props.GenKernels
 
@@ -196,6 +230,75 @@ open Acme.Layout in
 theorem K_verifyBeforeResize_no_panic (cap : Int) (l : List Slot) (newCap : Int) :
     K.verifyBeforeResize cap l newCap ≠ .panic :=
   Acme.GenK.verifyBeforeResize_no_panic cap l newCap
+
+/-! ### the state-changing functions of the payload layout (signal_layout.go, property C01) -/
+
+section State
+open Acme.Layout Acme.GenK
+
+/-- `insert` = `Acme.Layout.insert`, for every layout that does not already contain the signal;
+    `sg` is the relative start the argument signal has before the call (irrelevant). -/
+theorem K_layoutInsert (l : List Slot) (id : Nat) (sg sz st : Int) (h : ∀ s ∈ l, s.id ≠ id) :
+    K.layoutInsert l id sg sz st = Acme.Layout.insert l id sz st :=
+  layoutInsert_eq l id sg sz st h
+
+/-- `append` (verification included) = `Acme.Layout.append`. -/
+theorem K_layoutAppend (cap : Int) (l : List Slot) (id : Nat) (sg sz : Int) (h : ∀ s ∈ l, s.id ≠ id) :
+    stateRes (K.layoutAppend l cap id sg sz) = Acme.Layout.append cap l id sz :=
+  layoutAppend_eq cap l id sg sz h
+
+/-- a refused `append` leaves the list unchanged -/
+theorem K_layoutAppend_err (cap : Int) (l l' : List Slot) (id : Nat) (sg sz : Int) (c : K.Cause)
+    (h : K.layoutAppend l cap id sg sz = .val (l', some c)) : l' = l :=
+  layoutAppend_err cap l l' id sg sz c h
+
+/-- `remove` = `Acme.Layout.remove`, for all layouts. -/
+theorem K_layoutRemove (l : List Slot) (id : Nat) : K.layoutRemove l id = remove l id :=
+  layoutRemove_eq l id
+
+/-- `removeAll` empties the layout. -/
+theorem K_layoutRemoveAll (l : List Slot) : K.layoutRemoveAll l = [] :=
+  layoutRemoveAll_eq l
+
+/-- `compact` = `Acme.Layout.compact`, for all layouts. -/
+theorem K_layoutCompact (l : List Slot) : K.layoutCompact l = compact l :=
+  layoutCompact_eq l
+
+/-- `modifyStartBitsOnShrink` = `Acme.Layout.shrinkStarts` (`sz` = current size of the signal). -/
+theorem K_modifyStartBitsOnShrink (l : List Slot) (id : Nat) (sz amount : Int) :
+    stateExc (K.modifyStartBitsOnShrink l id sz amount) = shrinkStarts l id sz amount :=
+  modifyStartBitsOnShrink_eq l id sz amount
+
+theorem K_modifyStartBitsOnShrink_err (l l' : List Slot) (id : Nat) (sz amount : Int) (c : K.Cause)
+    (h : K.modifyStartBitsOnShrink l id sz amount = (l', some c)) : l' = l :=
+  modifyStartBitsOnShrink_err l l' id sz amount c h
+
+/-- `modifyStartBitsOnGrow` = `Acme.Layout.growStarts`, for all layouts: the two loops (gaps
+    behind the signal; pushing each follower by what is still missing) with their index
+    expressions; an index panic of the Go code is `LErr.panic` of the model. -/
+theorem K_modifyStartBitsOnGrow (cap : Int) (l : List Slot) (id : Nat) (amount : Int) :
+    stateRes (K.modifyStartBitsOnGrow cap l id amount) = growStarts cap l id amount :=
+  modifyStartBitsOnGrow_eq cap l id amount
+
+/-- `resize`: the list is unchanged; the size becomes `newCap` exactly when
+    `Acme.Layout.verifyResize` accepts, and the cause is the model's. -/
+theorem K_layoutResize (cap : Int) (l : List Slot) (newCap : Int) :
+    ∃ c, K.layoutResize cap l newCap = .val (l, (if c = none then newCap else cap), c) ∧
+      ofCause c = verifyResize cap l newCap :=
+  layoutResize_eq cap l newCap
+
+/-- `shiftLeft` = `Acme.Layout.shiftLeft` (new layout and distance moved), for all layouts; in
+    particular `sl.signals[idx-1]` never panics. -/
+theorem K_shiftLeft (l : List Slot) (id : Nat) (amount : Int) :
+    K.shiftLeft l id amount = .val (Acme.Layout.shiftLeft l id amount) :=
+  shiftLeft_eq l id amount
+
+/-- `shiftRight` = `Acme.Layout.shiftRight`, for all layouts; `sl.signals[idx+1]` never panics. -/
+theorem K_shiftRight (cap : Int) (l : List Slot) (id : Nat) (amount : Int) :
+    K.shiftRight cap l id amount = .val (Acme.Layout.shiftRight cap l id amount) :=
+  shiftRight_eq cap l id amount
+
+end State
 
 /-! ### enum and multiplexer sizes -/
 
